@@ -8,6 +8,7 @@ import (
 	"net/http"
 	"strings"
 	"sync"
+	"syscall"
 
 	"github.com/TeaEntityLab/fpGo/v2/network"
 
@@ -24,7 +25,10 @@ type c18LWorld struct {
 	hdrSeen  map[string]string
 	failID   int
 	failPath string
-	redirect int // status for paths starting with /moved
+	failErr  error
+	redirect int   // status for paths starting with /moved
+	tFault   error // the transport fails the round trip of tPath with this error (once)
+	tPath    string
 }
 
 func (w *c18LWorld) RoundTrip(r *http.Request) (*http.Response, error) {
@@ -34,7 +38,14 @@ func (w *c18LWorld) RoundTrip(r *http.Request) (*http.Response, error) {
 		w.hdrSeen[fmt.Sprintf("%s#%d", r.URL.Path, id)] = r.Header.Get(fmt.Sprintf("X-L%d", id))
 	}
 	st := w.redirect
+	fault := error(nil)
+	if w.tFault != nil && w.tPath == r.URL.Path {
+		fault, w.tFault = w.tFault, nil
+	}
 	w.mu.Unlock()
+	if fault != nil {
+		return nil, fault
+	}
 	if strings.HasPrefix(r.URL.Path, "/moved") && st != 0 {
 		h := http.Header{"Location": {"http://other.test/final" + strings.TrimPrefix(r.URL.Path, "/moved")}}
 		return &http.Response{StatusCode: st, Status: fmt.Sprint(st), Proto: "HTTP/1.1", ProtoMajor: 1, ProtoMinor: 1, Header: h, Body: io.NopCloser(strings.NewReader("")), Request: r}, nil
@@ -48,17 +59,25 @@ func c18LongHistory(id string, requests int, seed int64) core.Scenario {
 	return core.Scenario{ID: id, Class: "interceptor-chain.long", Run: func(c *core.Ctx) {
 		rng := rand.New(rand.NewSource(seed))
 		w := &c18LWorld{hdrSeen: map[string]string{}}
-		mk := func(idn int) *network.Interceptor {
-			var f network.Interceptor = func(r *http.Request) error {
+		// generation g of interceptor idn: the caller may assign a new function to the registered variable at any time
+		// (the registration is the pointer), the chain runs whatever the variable holds NOW
+		fn := func(idn, gen int) network.Interceptor {
+			return func(r *http.Request) error {
 				w.mu.Lock()
 				defer w.mu.Unlock()
-				w.log = append(w.log, fmt.Sprintf("I%d:%s", idn, r.URL.Path))
+				w.log = append(w.log, fmt.Sprintf("I%dg%d:%s", idn, gen, r.URL.Path))
 				r.Header.Set(fmt.Sprintf("X-L%d", idn), "seen:"+r.URL.Path)
 				if w.failID == idn && w.failPath == r.URL.Path {
-					return errC18L
+					return w.failErr
 				}
 				return nil
 			}
+		}
+		var ptrs [4]*network.Interceptor
+		var gens [4]int
+		mk := func(idn int) *network.Interceptor {
+			f := fn(idn, 0)
+			ptrs[idn] = &f
 			return &f
 		}
 		sh := network.NewSimpleHTTPWithClientAndInterceptors(&http.Client{Transport: w}, mk(1), mk(2), mk(3))
@@ -78,9 +97,30 @@ func c18LongHistory(id string, requests int, seed int64) core.Scenario {
 				legs = []string{p1}
 				failLeg = 1
 			}
+			// now and then: the caller re-assigns a registered interceptor variable; the transport loses the connection
+			// (EOF-class error) on one outgoing request; the refusing interceptor's error wraps such an error
+			if rng.Intn(12) == 0 {
+				idn := 1 + rng.Intn(3)
+				gens[idn]++
+				*ptrs[idn] = fn(idn, gens[idn])
+			}
+			var tFault error
+			tLeg := 0
+			if failing == 0 && rng.Intn(6) == 0 {
+				tFault = []error{io.EOF, io.ErrUnexpectedEOF, syscall.ECONNRESET, syscall.EPIPE, fmt.Errorf("stub: server closed idle connection: %w", io.EOF)}[rng.Intn(5)]
+				tLeg = 1 + rng.Intn(len(legs))
+			}
+			failErr := errC18L
+			if rng.Intn(3) == 0 {
+				failErr = fmt.Errorf("%w (while refreshing a token: %w)", errC18L, io.ErrUnexpectedEOF)
+			}
 			w.mu.Lock()
-			w.log, w.hdrSeen, w.redirect, w.failID = nil, map[string]string{}, redirect, failing
+			w.log, w.hdrSeen, w.redirect, w.failID, w.failErr = nil, map[string]string{}, redirect, failing, failErr
 			w.failPath = legs[failLeg-1]
+			w.tFault, w.tPath = tFault, ""
+			if tFault != nil {
+				w.tPath = legs[tLeg-1]
+			}
 			w.mu.Unlock()
 			url := "http://example.test" + p1
 			verb := rng.Intn(6)
@@ -105,11 +145,11 @@ func c18LongHistory(id string, requests int, seed int64) core.Scenario {
 			w.mu.Unlock()
 			// expected: per outgoing request I1 I2 I3 (cut at the refusing one) then T
 			var want []string
-			wantErr := false
+			wantErr, wantTransportErr := false, false
 			for li, path := range legs {
 				cut := false
 				for idn := 1; idn <= 3; idn++ {
-					want = append(want, fmt.Sprintf("I%d:%s", idn, path))
+					want = append(want, fmt.Sprintf("I%dg%d:%s", idn, gens[idn], path))
 					if failing == idn && failLeg == li+1 {
 						cut = true
 						break
@@ -120,6 +160,10 @@ func c18LongHistory(id string, requests int, seed int64) core.Scenario {
 					break
 				}
 				want = append(want, "T:"+path)
+				if tFault != nil && tLeg == li+1 {
+					wantTransportErr = true
+					break
+				}
 			}
 			if wantErr {
 				refused++
@@ -138,13 +182,21 @@ func c18LongHistory(id string, requests int, seed int64) core.Scenario {
 				c.Violationf("long:error-not-surfaced", rep, "%s: the caller got err=%v", desc, err)
 				return
 			}
-			if !wantErr && err != nil {
+			if wantTransportErr {
+				if err == nil || !errors.Is(err, tFault) {
+					c.Violationf("long:transport-error-not-surfaced", rep, "%s: the transport failed outgoing request %d with %v, the caller got err=%v", desc, tLeg, tFault, err)
+					return
+				}
+			} else if !wantErr && err != nil {
 				c.Violationf("long:unexpected-error", rep, "%s: the caller got err=%v", desc, err)
 				return
 			}
 			for _, l := range want {
 				if strings.HasPrefix(l, "T:") {
 					path := strings.TrimPrefix(l, "T:")
+					if wantTransportErr && path == legs[tLeg-1] {
+						continue
+					}
 					for idn := 1; idn <= 3; idn++ {
 						if got := seen[fmt.Sprintf("%s#%d", path, idn)]; got != "seen:"+path {
 							c.Violationf("long:header-not-reaching-transport", rep, "%s: for outgoing request %s the transport saw X-L%d=%q", desc, path, idn, got)
